@@ -116,6 +116,27 @@ pub fn judge_name(ty: &str, n: &str, ns_mode: u8) -> Option<Fail> {
             return Some(Fail::tagged("new-differs-from-builder", ty, format!("Purl::new({ty}, {n:?}) gives {direct:?}, the builder gives {built:?}")));
         }
     }
+    // the rule that applies is the rule of the type the PURL ends up with: a builder started
+    // (in either documented way) for another type and re-targeted before build() gives the same
+    if ns_mode <= 1 {
+        for t0 in [PackageType::PyPI, PackageType::NuGet, PackageType::Cargo] {
+            if t0 == t {
+                continue;
+            }
+            for start in 0..2 {
+                let b = if start == 0 { Purl::builder(t0, n) } else { purl::GenericPurlBuilder::new(t0, n) };
+                let b = if with_ns { b.with_namespace("g") } else { b };
+                let switched = obs::build(b.with_package_type(t)).map(|p| Snap::of(&p));
+                if switched != built {
+                    return Some(Fail::tagged(
+                        "retargeted-builder-differs",
+                        format!("{}->{ty}", type_name(t0)),
+                        format!("a builder started for {} with name {n:?} and re-targeted to {ty} gives {switched:?}; a {ty} builder gives {built:?}", type_name(t0)),
+                    ));
+                }
+            }
+        }
+    }
     if parsed != built {
         return Some(Fail::tagged("paths-disagree", ty, format!("parser and builder disagree for {ty} name {n:?}: {parsed:?} vs {built:?}")));
     }
